@@ -97,6 +97,10 @@ impl Vm {
       } else if module.id() < self.inline_cache.len() {
         self.inline_cache[module.id()] = cache;
       } else {
+        // a module that failed to compile took an id but never got a cache
+        while self.inline_cache.len() < module.id() {
+          self.inline_cache.push(InlineCache::new(0, 0));
+        }
         self.inline_cache.push(cache);
       }
       self.manage_obj(fun)
